@@ -526,4 +526,125 @@ theorem parseModComp_xlmod_prefixed {T : Tables} {p p' k : Str} (hp : p ∈ pXlm
   rw [startsWith_lower_head_false hlow (by decide), hasPrefix_head_false (c := 120) (by decide) hlow]
   simp only [hpre, dbComp_eq, hstrip, Bool.false_eq_true, if_false, if_true]
 
+
+/-! ### bare names -/
+
+theorem hasPrefix_sub {ps qs : List Str} {m : Str} (hsub : ∀ p ∈ ps, p ∈ qs) (h : hasPrefix qs m = false) :
+    hasPrefix ps m = false := by
+  simp only [hasPrefix] at h ⊢
+  apply List.any_eq_false.mpr
+  intro p hp
+  have := List.any_eq_false.mp h p (hsub p hp)
+  simpa using this
+
+theorem startsWith_of_reserved {p m : Str} (hp : p ∈ reserved) (h : hasPrefix reserved m = false) :
+    startsWith (lower m) p = false := by
+  simp only [hasPrefix] at h
+  have := List.any_eq_false.mp h p hp
+  simpa using this
+
+theorem keyClean_unpack {k : Str} (h : keyClean k = true) :
+    35 ∉ k ∧ 124 ∉ k ∧ hasPrefix reserved k = false ∧ notSigned k := by
+  unfold keyClean at h
+  simp only [Bool.and_eq_true, Bool.not_eq_true'] at h
+  obtain ⟨⟨⟨h1, h2⟩, h3⟩, h4⟩ := h
+  refine ⟨by simpa using h1, by simpa using h2, h3, ?_⟩
+  intro c r hk
+  subst hk
+  simpa using h4
+
+theorem stripPrefix_noPrefix {ps : List Str} {m : Str} (h : hasPrefix ps m = false) : stripPrefix ps m = m := by
+  simp [stripPrefix, h]
+
+/-- a clean, non numeric string that is a PSI-MOD accession or name reaches `parse_psi_mass` unchanged -/
+theorem parseModMass_bare_psi {T : Tables} {n : Str} (mono : Bool) (hc : keyClean n = true)
+    (hnum : convertType n = .str) (hin : ((byId T.psimod n).isSome || (byName T.psimod n).isSome) = true) :
+    parseModMass T n mono = (getMass T T.psimod n mono).map some := by
+  obtain ⟨h35, _, hres, _⟩ := keyClean_unpack hc
+  have hm35 := contains_false h35
+  unfold parseModMass
+  simp only [hm35, Bool.false_and, hnum, if_false, Bool.false_eq_true]
+  rw [startsWith_of_reserved (by decide) hres, hasPrefix_sub (ps := pGno) (by decide) hres,
+    hasPrefix_sub (ps := pXlmod) (by decide) hres, hasPrefix_sub (ps := pResid) (by decide) hres,
+    startsWith_of_reserved (by decide) hres]
+  simp only [isDbStr, hin, Bool.or_true, Bool.or_assoc, stripPrefix_noPrefix (hasPrefix_sub (ps := pPsi) (by decide) hres),
+    Bool.false_eq_true, if_false, if_true]
+
+/-- a clean, non numeric string that is no PSI-MOD key but a Unimod accession or name reaches `parse_unimod_mass` -/
+theorem parseModMass_bare_unimod {T : Tables} {n : Str} (mono : Bool) (hc : keyClean n = true)
+    (hnum : convertType n = .str) (hpsi : notPsiKey T n)
+    (hin : ((byId T.unimod n).isSome || (byName T.unimod n).isSome) = true) :
+    parseModMass T n mono = (getMass T T.unimod n mono).map some := by
+  obtain ⟨h35, _, hres, _⟩ := keyClean_unpack hc
+  have hm35 := contains_false h35
+  unfold parseModMass
+  simp only [hm35, Bool.false_and, hnum, if_false, Bool.false_eq_true]
+  rw [startsWith_of_reserved (by decide) hres, hasPrefix_sub (ps := pGno) (by decide) hres,
+    hasPrefix_sub (ps := pXlmod) (by decide) hres, hasPrefix_sub (ps := pResid) (by decide) hres,
+    startsWith_of_reserved (by decide) hres]
+  simp only [isDbStr, hasPrefix_sub (ps := pPsi) (by decide) hres, hpsi.1, hpsi.2, Option.isSome_none, Bool.or_false,
+    hasPrefix_sub (ps := pUnimod) (by decide) hres, Bool.false_or, hin,
+    stripPrefix_noPrefix (hasPrefix_sub (ps := pUnimod) (by decide) hres), Bool.false_eq_true, if_false, if_true]
+
+theorem parseModComp_bare_psi {T : Tables} {n : Str} (hc : keyClean n = true)
+    (hnum : convertType n = .str) (hin : ((byId T.psimod n).isSome || (byName T.psimod n).isSome) = true) :
+    parseModComp T n = compOfKey T.psimod n := by
+  obtain ⟨h35, _, hres, _⟩ := keyClean_unpack hc
+  have hm35 := contains_false h35
+  unfold parseModComp
+  simp only [hm35, Bool.false_and, hnum, if_false, Bool.false_eq_true]
+  rw [startsWith_of_reserved (by decide) hres, hasPrefix_sub (ps := pGno) (by decide) hres,
+    hasPrefix_sub (ps := pXlmod) (by decide) hres, hasPrefix_sub (ps := pResid) (by decide) hres,
+    startsWith_of_reserved (by decide) hres, startsWith_of_reserved (by decide) hres]
+  simp only [isDbStr, hin, Bool.or_true, Bool.or_assoc, dbComp_eq,
+    stripPrefix_noPrefix (hasPrefix_sub (ps := pPsi) (by decide) hres), Bool.false_eq_true, if_false, if_true]
+
+theorem parseModComp_bare_unimod {T : Tables} {n : Str} (hc : keyClean n = true)
+    (hnum : convertType n = .str) (hpsi : notPsiKey T n)
+    (hin : ((byId T.unimod n).isSome || (byName T.unimod n).isSome) = true) :
+    parseModComp T n = compOfKey T.unimod n := by
+  obtain ⟨h35, _, hres, _⟩ := keyClean_unpack hc
+  have hm35 := contains_false h35
+  unfold parseModComp
+  simp only [hm35, Bool.false_and, hnum, if_false, Bool.false_eq_true]
+  rw [startsWith_of_reserved (by decide) hres, hasPrefix_sub (ps := pGno) (by decide) hres,
+    hasPrefix_sub (ps := pXlmod) (by decide) hres, hasPrefix_sub (ps := pResid) (by decide) hres,
+    startsWith_of_reserved (by decide) hres, startsWith_of_reserved (by decide) hres]
+  simp only [isDbStr, hasPrefix_sub (ps := pPsi) (by decide) hres, hpsi.1, hpsi.2, Option.isSome_none, Bool.or_false,
+    hasPrefix_sub (ps := pUnimod) (by decide) hres, Bool.false_or, hin, dbComp_eq,
+    stripPrefix_noPrefix (hasPrefix_sub (ps := pUnimod) (by decide) hres), Bool.false_eq_true, if_false, if_true]
+
+/-! ### one alternative -/
+
+theorem splitOnAux_noSep {x : Nat} : ∀ (s acc : Str), x ∉ s → splitOnAux [x] 0 acc s = [acc.reverse ++ s]
+  | [], acc, _ => by simp [splitOnAux]
+  | c :: r, acc, h => by
+    have hc : x ≠ c := fun e => h (e ▸ List.mem_cons_self)
+    have hr : x ∉ r := fun e => h (List.mem_cons_of_mem _ e)
+    simp [splitOnAux, List.isPrefixOf, hc, splitOnAux_noSep r (c :: acc) hr]
+
+theorem splitBar_single {s : Str} (h : 124 ∉ s) : splitBar s = [s] := by
+  simp [splitBar, splitOn, splitOnAux_noSep s [] h]
+
+theorem modMass_single {T : Tables} {s : Str} (mono : Bool) (h : 124 ∉ s) {r : Except Err Mass}
+    (hp : parseModMass T s mono = r.map some) : modMass T s mono = r := by
+  simp only [modMass, splitBar_single h, firstMass, hp]
+  cases r <;> rfl
+
+theorem modComp_single {T : Tables} {s : Str} (h : 124 ∉ s) {r : Except Err Comp}
+    (hp : parseModComp T s = r.map some) : modComp T s = r := by
+  simp only [modComp, splitBar_single h, firstComp, hp]
+  cases r <;> rfl
+
+/-- the composition of an entry as `mod_comp` reports it -/
+def entryCompParsed (e : Entry) : Except Err Comp :=
+  match entryComp e with
+  | .error er => .error er
+  | .ok f => parseChem f []
+
+theorem compOfKey_of_find {db : List Entry} {k : Str} {e : Entry}
+    (hs : notSigned k) (hf : findEntry db k = some e) : compOfKey db k = (entryCompParsed e).map some := by
+  simp only [compOfKey, getComp_of_find hs hf, entryCompParsed]
+  cases entryComp e <;> rfl
+
 end ModDb
